@@ -161,6 +161,8 @@ def gen_save(tier, seed):
         if k % 3 == 0:
             # the time coordinate stored as a double without a fill value, the way EMS writes it
             yield {'spec': spec, 'units': units[(k + 1) % len(units)], 'time_dtype': 'float64'}
+        if k % 3 == 1:
+            yield {'spec': spec, 'units': units[(k + 2) % len(units)], 'snapshot': True}
 
 
 def raw_attrs(path):
@@ -192,6 +194,8 @@ def test_save(inp):
         src = os.path.join(tmp, 'src.nc')
         ds.to_netcdf(src)                       # a file "from a model"
         orig = emsarray.open_dataset(src)
+        if inp.get('snapshot') and tname is not None and ds[tname].ndim == 1:
+            orig = orig.isel({ds[tname].dims[0]: 0})      # one time step: the time coordinate becomes a scalar variable
         conv = type(orig.ems).__name__
         before = raw_attrs(src)
         out = os.path.join(tmp, 'out.nc')
